@@ -98,7 +98,7 @@ def reshape_failure_cases(
     ):
         reshaped_failure_cases = failure_cases
     elif is_table(failure_cases) and is_multiindex(failure_cases.index):
-        reshaped_failure_cases = (
+        stringified = (
             failure_cases.rename_axis("column", axis=1)  # type: ignore[call-overload]
             .assign(
                 index=lambda df: (
@@ -106,10 +106,29 @@ def reshape_failure_cases(
                 )
             )
             .set_index("index", drop=True)
-            .unstack()
-            .rename("failure_case")
-            .reset_index()
         )
+        if (
+            isinstance(stringified, pd.DataFrame)
+            and not stringified.index.is_unique
+        ):
+            # unstack() cannot reshape rows whose index tuples repeat
+            n_rows, n_cols = stringified.shape
+            reshaped_failure_cases = pd.DataFrame(
+                {
+                    "column": stringified.columns.repeat(n_rows),
+                    "index": stringified.index.append(
+                        [stringified.index] * (n_cols - 1)
+                    ),
+                    "failure_case": pd.concat(
+                        [stringified.iloc[:, i] for i in range(n_cols)],
+                        ignore_index=True,
+                    ),
+                }
+            )
+        else:
+            reshaped_failure_cases = (
+                stringified.unstack().rename("failure_case").reset_index()
+            )
     elif is_field(failure_cases) and is_multiindex(failure_cases.index):
         reshaped_failure_cases = (
             failure_cases.rename("failure_case")  # type: ignore[call-overload]
